@@ -92,25 +92,31 @@ MaxOf(S) == IF S = {} THEN 0 ELSE CHOOSE x \in S : \A y \in S : y <= x
 LaneFor(b) == IF "LaneOvertake" \notin cfg.dev THEN 1 ELSE 1 + MaxOf(LanesInUse(b))
 OldestOfBank(i) == \A j \in 1..(i - 1) : loc[pending[j]].b # loc[pending[i]].b
 
-\* Dead ends are not explored.  The post-pipeline buffer and the port are FIFOs, so the requests of a bank leave its
-\* pipeline in the order of their responses in the log; and unless LaneOvertake is assumed the pipeline and the delay
-\* queue are FIFOs too, so they are entered in that order as well.
+\* Dead ends and equivalent interleavings are not explored.  The post-pipeline buffer and the port are FIFOs, so the
+\* next request to leave a pipeline is the one whose response is next in the log (FocusId), and it may as well leave
+\* right before that response; once it can leave nothing else needs to happen first.  Unless LaneOvertake is assumed
+\* the pipeline and the delay queue are FIFOs too, so they are entered in the order of the responses as well.
+FocusId == IF l > N \/ NextRsp[l] = 0 THEN 0 ELSE TraceLog[NextRsp[l]].id
 Waiting(b) == {id \in 1..Len(reqs) : loc[id].b = b /\ id \notin done}           \* arrived, not yet out of the pipeline
 InPipe(b) == {pipe[b][i].id : i \in 1..Len(pipe[b])}
-MayLeave(b, id) == \A x \in Waiting(b) \ {id} : rk[x] > rk[id]
+CanLeave(b) == {k \in 1..Len(pipe[b]) : /\ pipe[b][k].id = FocusId
+                                        /\ \A j \in 1..(k - 1) : pipe[b][j].lane # pipe[b][k].lane
+                                        /\ k = 1 \/ "LaneOvertake" \in cfg.dev}
 MayEnter(b, id) == "LaneOvertake" \in cfg.dev \/ \A x \in (Waiting(b) \ InPipe(b)) \ {id} : rk[x] > rk[id]
 MayQueue(b, id) == "LaneOvertake" \in cfg.dev \/ \A i \in 1..Len(delayQ[b]) : rk[delayQ[b][i]] < rk[id]
 
 TInternal ==
   /\ FocusBank >= 0 /\ UNCHANGED <<l, run, hyp, rk, srcOf>>
   /\ LET b == FocusBank IN
-     \/ \E i \in 1..Len(pending) :
-          /\ loc[pending[i]].b = b
-          /\ "LaneOvertake" \in cfg.dev => OldestOfBank(i)
-          /\ \E lane \in {1, LaneFor(b)} : Dispatch(i, lane)      \* (the delay-queue path of Dispatch wants lane = 1)
-          /\ IF Len(delayQ'[b]) > Len(delayQ[b]) THEN MayQueue(b, pending[i]) ELSE MayEnter(b, pending[i])
-     \/ delayQ[b] # <<>> /\ MayEnter(b, Head(delayQ[b])) /\ Expire(b, LaneFor(b))
-     \/ \E k \in 1..Len(pipe[b]) : MayLeave(b, pipe[b][k].id) /\ ExitAndCommit(b, k)
+     IF CanLeave(b) # {}
+     THEN \E k \in CanLeave(b) : ExitAndCommit(b, k)
+     ELSE \/ \E i \in 1..Len(pending) :
+               /\ loc[pending[i]].b = b
+               /\ "LaneOvertake" \in cfg.dev => OldestOfBank(i)
+               /\ \/ Dispatch(i, LaneFor(b)) /\ pipe'[b] # pipe[b]        \* straight into the pipeline
+                  \/ Dispatch(i, 1) /\ delayQ'[b] # delayQ[b]             \* into the delay queue (wants lane = 1)
+               /\ IF Len(delayQ'[b]) > Len(delayQ[b]) THEN MayQueue(b, pending[i]) ELSE MayEnter(b, pending[i])
+          \/ delayQ[b] # <<>> /\ MayEnter(b, Head(delayQ[b])) /\ Expire(b, LaneFor(b))
 
 TNext == TEnvReq \/ TDrain \/ TRsp \/ TTake \/ TQuiesce \/ TInternal
 TSpec == TInit /\ [][TNext]_tvars
